@@ -86,10 +86,12 @@ unexpected_cfgs = {{ level = "allow", check-cfg = ['cfg(kani)'] }}
     return crate, meta
 
 
-BS = "operand stack of 5 symbolic values, frame pointer anywhere below the arguments, arity <= 2"
+BS = "operand stack of 5 symbolic values, 0-2 arguments, 0-2 caller temporaries between frame pointer and arguments, arity <= 2"
 OBS = {
     "tail_call_closure_contract": dict(props=["C09"], kind="bounded", bound=BS, functions=["VmCore::new_handle_tail_call_closure", "VmCore::adjust_stack_for_multi_arity", "StackFrame::set_function"],
                                        contract="a tail call to a fixed-arity closure REUSES the frame: frame count unchanged, stack' == stack[..sp] ++ the `arity` arguments in order, everything below sp untouched, ip' == 0, code and frame function are the callee's; wrong argument count => ArityMismatch with the frame count unchanged"),
+    "tail_call_closure_two_contract": dict(props=["C09"], kind="bounded", bound=BS, functions=["VmCore::new_handle_tail_call_closure"], contract="same with two arguments passed"),
+    "tco_jump_two_contract": dict(props=["C09"], kind="bounded", bound=BS, functions=["VmCore::tco_jump_handler"], contract="self tail call with two arguments passed"),
     "tail_call_rest_args_contract": dict(props=["C09", "C01"], kind="bounded", bound=BS, functions=["VmCore::new_handle_tail_call_closure", "VmCore::adjust_stack_for_multi_arity"],
                                          contract="rest-argument callee: the surplus arguments are collected, in order, into one list; frame count unchanged; too few arguments => ArityMismatch"),
     "tail_call_rest_args_two_contract": dict(props=["C09", "C01"], kind="bounded", bound=BS, functions=["VmCore::new_handle_tail_call_closure", "VmCore::adjust_stack_for_multi_arity"],
